@@ -1,0 +1,9 @@
+// SPDX-FileCopyrightText: 2014-2024 caixw
+//
+// SPDX-License-Identifier: MIT
+
+//go:build !verif
+
+package tree
+
+func (tree *Tree[T]) vhook(string, bool) {}
